@@ -39,6 +39,8 @@ type PackWriter struct {
 	// promisor, when non-nil, writes a .promisor sidecar next to the pack
 	// carrying these contents. A nil value leaves the pack unmarked.
 	promisor *string
+	// saved, when non-nil, is called once the pack is in place.
+	saved func()
 }
 
 func newPackWrite(fs billy.Filesystem, format formatcfg.ObjectFormat, writeRev bool) (*PackWriter, error) {
@@ -133,7 +135,13 @@ func (w *PackWriter) Close() error {
 		return w.clean()
 	}
 
-	return w.save()
+	if err := w.save(); err != nil {
+		return err
+	}
+	if w.saved != nil {
+		w.saved()
+	}
+	return nil
 }
 
 func (w *PackWriter) clean() error {
@@ -374,6 +382,8 @@ type ObjectWriter struct {
 	objfile.Writer
 	fs billy.Filesystem
 	f  billy.File
+	// saved, when non-nil, is called once the object is in place.
+	saved func()
 }
 
 func newObjectWriter(fs billy.Filesystem, objectFormat formatcfg.ObjectFormat) (*ObjectWriter, error) {
@@ -399,7 +409,13 @@ func (w *ObjectWriter) Close() error {
 		return err
 	}
 
-	return w.save()
+	if err := w.save(); err != nil {
+		return err
+	}
+	if w.saved != nil {
+		w.saved()
+	}
+	return nil
 }
 
 func (w *ObjectWriter) save() error {
